@@ -185,7 +185,44 @@ def through_model(ctx, kind="rk4", d=2):
 
 
 _F = [ExplicitEulerIterator, RK4Iterator, DESolver._getdXdt, DESolver._updateX]
+def aliasing(ctx, kind="rk4", d=2, rhs="identity"):
+    """the iterator called directly with a right-hand side whose returned array IS (or is a view of) the array it was handed:
+    dx/dt = x written as `return x`, and dx/dt = x*x kept in a buffer the function reuses.  The state vector is not modified and
+    the step is the Taylor polynomial of the scheme."""
+    it = RK4Iterator if kind == "rk4" else ExplicitEulerIterator
+    X = ctx.reals("x", d, (-1.0, 1.0))
+    t = ctx.real("t", (0.0, 1.0)); dt = ctx.real("dt", (0.01, 0.5)); ctx.assume(dt > 0)
+    x0 = [X[j] * 1 for j in range(d)]
+    buf = {}
+
+    def f(tt, x, flag=False):
+        if rhs == "identity":
+            out = x                                   # the very object
+        elif rhs == "view":
+            out = x[:]                                # a view of it
+        else:
+            if "b" not in buf:
+                buf["b"] = np.zeros(d, dtype=object)
+            buf["b"][:] = [2.0 * x[j] for j in range(d)]      # dx/dt = 2x in a reused buffer: earlier stage results are overwritten
+            out = buf["b"]
+        return (out, dt) if flag else out
+
+    xn, dtu = it(f, t, X, lambda Xo, dxdt, h: Xo + dxdt * h)
+    lam = 2.0 if rhs == "buffer" else 1.0
+    z = lam * dt
+    amp = 1 + z + z * z / 2 + z * z * z / 6 + z * z * z * z / 24 if kind == "rk4" else 1 + z
+    for j in range(d):
+        ctx.prove("X_old_not_modified", ctx.eq(X[j], x0[j]))
+        if rhs != "buffer":
+            ctx.prove("step is the scheme's Taylor polynomial for dx/dt = x", ctx.eq(xn[j], x0[j] * amp))
+
+
 HARNESSES = [
+    Harness("C06.aliasing", aliasing, functions=[ExplicitEulerIterator, RK4Iterator],
+            assumptions=["the iterator is called directly (public function); updateX is X + dxdt*dt; the right-hand side returns its argument, a view of it, or a reused buffer",
+                         "for the reused buffer only the state vector is examined: a function that overwrites its own earlier results is outside what an iterator can be asked to survive"],
+            params={"quick": [{"kind": k, "rhs": r} for k in ("rk4", "euler") for r in ("identity", "view", "buffer")],
+                    "thorough": [{"kind": k, "rhs": r, "d": 3} for k in ("rk4", "euler") for r in ("identity", "view", "buffer")]}),
     Harness("C06.tableau", tableau, functions=_F,
             assumptions=["order conditions up to order 4 (8 conditions) are necessary and sufficient for order 4 of an explicit RK method on smooth problems",
                          "tableau coefficients are rationals with denominator < 1e5 (extracted by concrete probing; the symbolic linear-form obligations make the extraction sound for all t, dt, X, k)"],
